@@ -541,7 +541,13 @@ def r_timewindow(repo, rep):
       rep.violation('R4/ordering-guard', f.qualname, norm(weak[0].expr),
                     'the ordering test `%s` is not "first_day > last_day": reversed ranges pass or single days are rejected' % norm(weak[0].expr), f.loc(weak[0].expr))
     else:
-      rep.violation('R4/ordering-guard', f.qualname, 'no ordering test', 'TimeWindow no longer rejects first_day > last_day', f.loc())
+      # a comparison guarding a raise exists, but on values whose origin in first_day / last_day is not followed
+      raising_cmp = [n_ for n_ in g.nodes if n_.kind == 'test' and any(isinstance(x_, ast.Compare) and isinstance(x_.ops[0], (ast.Gt, ast.Lt, ast.GtE, ast.LtE)) for x_ in ast.walk(n_.expr))
+                     and any(g.raise_exit in g.reachable(m_, cfgmod.no_exc) and g.exit not in g.reachable(m_, cfgmod.no_exc) for m_, lab_ in g.succ[n_] if lab_ in ('true', 'false'))]
+      if raising_cmp:
+        rep.undecided('R4/ordering-guard', 'TimeWindow.__post_init__', 'an ordering test `%s` rejects, but its operands are not followed back to first_day and last_day' % norm(raising_cmp[0].expr)[:60], f.loc(raising_cmp[0].expr))
+        return
+      rep.absent(f, 'R4/ordering-guard', f.qualname, 'no ordering test', 'TimeWindow no longer rejects first_day > last_day', f.loc())
     return
   n, branch = guards[0]
   # the bad branch must raise ValueError on every path, and the guard must dominate the normal exit
